@@ -153,7 +153,7 @@ func (b *StppBox) EncodeSW(sw bits.SliceWriter) error {
 			return err
 		}
 	}
-	return err
+	return sw.AccError()
 }
 
 // Info - write specific box info to w
